@@ -39,11 +39,12 @@
                                                               |   of FtModel.Annot on `graphSt`)
   SolutionTracks.__init__ (= Tracks.__init__ + lookup of the  | `construct` with `solution := true`
       TrackAnnotator)                                         |
-  SolutionTracks.from_tracks                                  | `fromTracks` (`none` = KeyError)
+  SolutionTracks.from_tracks                                  | `fromTracks` (`fromForce`, `fromSoln`)
 
-  Variants for the two repaired defects (used by the witness theorems only):
+  Variants for the repaired defects (used by the witness theorems only):
   `featureSetD10` (per-axis features written into the plain dict AFTER the FeatureDict copied it:
-  never registered), `enableD17` (special keys not set by `enable_features`).
+  never registered), `enableD17` (special keys not set by `enable_features`), `fromTracksUnfixed`
+  (`from_tracks` before fix 895cc32: id features left inactive / KeyError on a None lineage key).
 
   Not modelled: values of position/area/IoU (the log `computed` says which (annotator, key) pairs
   were recomputed in bulk, `CNode.attrs` records presence), the `warn` when both a FeatureDict and
@@ -440,14 +441,35 @@ def attrValOpt (n : CNode) (k : Option Name) : Option Nat :=
   | some k => attrVal n k
   | none => none
 
-/-- `SolutionTracks.from_tracks(tracks)`; `none` = KeyError from `enable_features([…, None])` -/
+/-- `force_recompute` of `from_tracks`: some node has no (non-None) value under the tracklet key or
+    under the lineage key (`get_node_attr(node, None)` is None: a missing lineage KEY forces it) -/
+def fromForce (t : COut) : Bool :=
+  match t.trackletKey with
+  | some tk => t.nodes.any (fun n => (attrVal n tk).isNone || (attrValOpt n t.lineageKey).isNone)
+  | none => false
+
+/-- the `cls(tracks.graph, …, features=tracks.features)` call of `from_tracks` -/
+def fromSoln (t : COut) : COut :=
+  construct { solution := true, hasSeg := t.hasSeg, ndim := t.ndim,
+              prebuilt := some (prebuiltOf t), nodes := t.nodes, edges := t.edges }
+
+/-- `SolutionTracks.from_tracks(tracks)` as repaired (fix commit 895cc32): if the FeatureDict
+    names a tracklet key, the id features (the keys that are not None) are handed to
+    `enable_features(…, recompute=force_recompute)` — always activated and registered, recomputed
+    only when a node lacked one.  (`none` = KeyError; cannot happen any more, see
+    `C04_from_tracks_ids_active`.) -/
 def fromTracks (t : COut) : Option COut :=
-  let force := match t.trackletKey with
-    | some tk => t.nodes.any (fun n => (attrVal n tk).isNone || (attrValOpt n t.lineageKey).isNone)
-    | none => false
-  let soln := construct { solution := true, hasSeg := t.hasSeg, ndim := t.ndim,
-                          prebuilt := some (prebuiltOf t), nodes := t.nodes, edges := t.edges }
-  if force then
+  let soln := fromSoln t
+  match t.trackletKey with
+  | some _ => enable soln ([soln.trackletKey, soln.lineageKey].filterMap id) (fromForce t)
+  | none => some soln
+
+/-- `from_tracks` before that repair: `enable_features([tracklet_key, lineage_key])` only when
+    `force_recompute`, with the keys as they are (a None lineage key is a KeyError); otherwise
+    the id features stay inactive and unregistered -/
+def fromTracksUnfixed (t : COut) : Option COut :=
+  let soln := fromSoln t
+  if fromForce t then
     match soln.trackletKey, soln.lineageKey with
     | some tk, some lk => enable soln [tk, lk] true
     | _, _ => none                       -- `None` is not an available feature: KeyError
